@@ -20,6 +20,7 @@ pub struct C12Result {
 pub const SIG_F6: &str = "remove_expired removes the expired entry without its descendants";
 pub const SIG_F7: &str = "submit_entry inserts a child whose parent left the pool after pre_check";
 pub const SIG_F11: &str = "descendants of a detached tx that cannot be re-added stay pooled";
+pub const SIG_F12: &str = "remove_by_detached_proposal drops an entry whose re-add fails but re-adds its descendants";
 pub const SIG_GAP: &str = "gap-stage entry is not demoted when its proposal leaves the window from the gap";
 
 /// every input / dep of a pooled tx is live on the chain or an output of a pooled tx
@@ -127,6 +128,24 @@ pub fn c12_predicate(w: &World, dump: &PoolDump, ch: &Change, before: Option<&Po
             // the parent was committed on the abandoned branch only and could not come back
             sig = Some(SIG_F11);
         }
+        if sig.is_none() {
+            // F12: the parent was pooled, and re-adding it (remove_by_detached_proposal) hits the ancestor limit
+            if let Some(pe) = before.and_then(|b| b.entries.iter().find(|e| e.tx_hash == ph)) {
+                let by_hash: HashMap<Byte32, &EntryDump> = dump.entries.iter().map(|e| (e.tx_hash.clone(), e)).collect();
+                let mut anc: HashSet<Byte32> = HashSet::new();
+                let mut stack: Vec<Byte32> = pe.inputs.iter().chain(pe.related_deps.iter()).map(|op| op.tx_hash()).collect();
+                while let Some(h) = stack.pop() {
+                    if let Some(e) = by_hash.get(&h) {
+                        if anc.insert(h) {
+                            stack.extend(e.inputs.iter().chain(e.related_deps.iter()).map(|op| op.tx_hash()));
+                        }
+                    }
+                }
+                if anc.len() + 1 > dump.max_ancestors_count && pe.status != Status::Pending {
+                    sig = Some(SIG_F12);
+                }
+            }
+        }
         if let Some(s) = sig {
             learn.push((ph, s));
         }
@@ -155,6 +174,13 @@ pub fn c12_predicate(w: &World, dump: &PoolDump, ch: &Change, before: Option<&Po
                 continue;
             }
             lost.push(tx.hash());
+            // eviction by size is policy: only judge when the pool has room for everything that comes back
+            let back: usize = ch.detached.iter().flat_map(|b| b.transactions().into_iter().skip(1)).map(|t| t.data().serialized_size_in_block()).sum();
+            let roomy = before.map(|b| b.total_tx_size + back + 2_000 <= w.cfg.max_tx_pool_size).unwrap_or(false);
+            if !roomy || w.racing_since_sync > 0 {
+                c("c12_detached_tx_lost_not_judged", 1);
+                continue;
+            }
             if admissible(w, dump, tx) {
                 // the node's own admission test on the final state
                 let own = matches!(w.node.pool().test_accept_tx(tx.clone()), Ok(Ok(_)));
